@@ -66,6 +66,11 @@ def generate(rng, tier):
     for a in (range(0, 256) if tier != 'quick' else range(100, 200)):
         cases.append(('tfr%d' % a, ['gb.newloop 0 0 0 0', 'gb.cyc 0 %d' % a, 'gb.w 0 65295 0', 'gb.w 0 65285 187', 'gb.w 0 65287 4', 'gb.frames 0 1',
                                     'gb.r 0 65295', 'gb.cyc 0 2', 'gb.r 0 65295', 'gb.obs 0']))
+    # a frame step advances 17,556 cycles whatever the state of the context (Run looks at it between frames only)
+    for rep in range(2 if tier == 'quick' else 8):
+        cases.append(('fr%d' % n, ['gb.newloop 0 %d 1 3' % rng.choice([0, 16]), 'gb.cyc 0 %d' % rng.randrange(0, 3000), 'gb.obs 0', 'gb.framesc 0 1', 'gb.obs 0',
+                                   'gb.frames 0 1', 'gb.obs 0', 'gb.framesc 0 2', 'gb.obs 0']))
+        n += 1
     from props import sysgen as _sg
     for rep in range(2 if tier == 'quick' else 12):
         cases.append(('fr%d' % n, _sg.key_case(rng, [0x10, 0x00, 0x3c, 0x18, 0xfd], n_events=4) + ['gb.frames 0 1', 'gb.obs 0']))
